@@ -692,7 +692,17 @@ def c17_generic(tier):
                           ("lifetime_cow_float", False, "pub struct X<'a> { pub a: ::std::borrow::Cow<'a, [f64]> }"),
                           ("lifetime_tuple_float", False, "pub enum X<'a> { A((&'a str, f64)), B }"),
                           ("lifetime_ref_int", True, "pub struct X<'a>(pub &'a u8, pub &'a str);"),
-                          ("lifetime_and_type_param_float", False, "pub struct X<'a, T>(pub &'a T, pub &'a f64);")):
+                          ("lifetime_and_type_param_float", False, "pub struct X<'a, T>(pub &'a T, pub &'a f64);"),
+                          # data-carrying variants with explicit discriminants (primitive repr)
+                          ("disc_variant_float", False, "#[repr(u8)] pub enum X { A(u8) = 1, B(f32) = 2, C = 7 }"),
+                          ("disc_variant_float_named", False, "#[repr(u8)] pub enum X { A = 3, B { x: (u8, f64) } = 10 }"),
+                          ("disc_variant_float_keyed", False, "#[repr(i8)] pub enum X { A = -1, B { #[eq(key = $.1)] x: (u8, f64) } = 10 }"),
+                          ("disc_variant_ints", True, "#[repr(u8)] pub enum X { A(u8) = 1, B { x: (u8, i64) } = 2, C = 7 }"),
+                          # key expressions that go through `Self`
+                          ("key_through_self_float", False, "pub struct X { #[eq(key = Self::k(&$))] pub a: f64 }\nimpl X { fn k(v: &f64) -> f64 { *v } }"),
+                          ("key_through_self_int", True, "pub struct X { #[eq(key = Self::k(&$))] pub a: f64 }\nimpl X { fn k(v: &f64) -> i64 { *v as i64 } }"),
+                          ("key_through_self_generic_float", False, "pub enum X<T> { A(#[eq(key = <Self>::SCALE * 1.5)] T), B }\nimpl<T> X<T> { const SCALE: f64 = 2.0; }"),
+                          ("key_through_self_generic_int", True, "pub enum X<T> { A(#[eq(key = <Self>::SCALE + 1)] T), B }\nimpl<T> X<T> { const SCALE: u8 = 2; }")):
         cases.append((tag, ok, hdr + "#[::derive_ex::derive_ex(Eq, PartialEq)] %s\n" % item))
     # ignored / by-compared generic fields need nothing
     cases.append(("ignored_generic", True, hdr + "#[::derive_ex::derive_ex(Eq, PartialEq)] pub struct X<T>(#[eq(ignore, bound())] pub T, pub u8);\n"))
